@@ -132,7 +132,15 @@ def run(idx, rep, tier):
         clips = [c for c in df.calls(body.node) if df.is_xnp_call(c) == "clip"]
         divs = [n for n in df.body_nodes(body.node) if (isinstance(n, ast.AugAssign) and isinstance(n.op, ast.Div)) or (isinstance(n, ast.BinOp) and isinstance(n.op, ast.Div))]
         guarded = [c for c in clips if any(c in list(ast.walk(d)) for d in divs)]
-        if not guarded:
+        def is_norm(c):
+            if isinstance(c, ast.Call):
+                return df.is_xnp_call(c) == "norm"
+            return isinstance(c, ast.Name) and any(isinstance(v, ast.Call) and df.is_xnp_call(v) == "norm" for v, p_, st_ in df.assignments(body.node).get(c.id, []))
+        norm_divs = [d for d in divs if any(is_norm(c) for c in ast.walk(d.value if isinstance(d, ast.AugAssign) else d.right))]
+        if not guarded and not norm_divs:
+            rep.undecided("normalisation-floor", "arnoldi_fact:normalise", "no division of the new vector by its norm found in the loop body (the step may live in a method the analysis does not follow)",
+                          locs=[idx.loc(fact.module, body.node)])
+        elif not guarded:
             rep.refuted("normalisation-floor", "arnoldi_fact:normalise", "the new basis vector is divided by its norm without a floor: division by zero at breakdown", detail="no-floor",
                         locs=[idx.loc(fact.module, body.node)])
         else:
